@@ -119,7 +119,9 @@ package beacon
 //@   modifies nothing
 
 //@ func (*Handler).ProcessPartialBeacon(h, ctx, p) (res, err)
-//@   props C03 C04 C07
+//@   props C03 C04 C07 C14
+//@   flags lockcheck nopanic recovered
+//@   requires [C14] h.l != nil && h.chain != nil && h.chain.CallbackStore != nil && h.conf.Clock != nil && h.crypto.ThresholdScheme != nil && h.crypto.group != nil && h.crypto.DigestBeacon != nil
 //@   requires [C03,C04,C07] h.conf != nil && h.conf.Group != nil && h.crypto != nil && h.crypto.Scheme != nil && h.crypto.share != nil && h.crypto.share.Share != nil
 //@   requires [C03,C04,C07] common.validPeriod(h.conf.Group.Period) && common.validGenesis(h.conf.Group.GenesisTime)
 //@   call NewValidPartial#0: assert [C03:forwarded-partial-verified-against-live-polynomial] p != nil && crypto.validPartial(h.crypto.pub, crypto.digestOf(h.crypto.Scheme, p.Round, p.PreviousSignature), p.PartialSig)
@@ -240,3 +242,45 @@ package beacon
 //@   ensures [C12:remove-leaves-other-callbacks] forall k string :: k != id ==> has(c.newJob, k) == old(has(c.newJob, k)) && c.newJob[k] == old(c.newJob[k]) && has(c.callbacks, k) == old(has(c.callbacks, k))
 
 //@ lemma [C12] callback-queue-is-bounded: CallbackWorkerQueue > 0 && MaxPartialsPerNode > 0
+
+// ---- C04 (send side): no partial for a round beyond the ticked round ------------------
+
+//@ iface (github.com/drand/drand/v2/crypto/vault.CryptoSafe).SignPartial(v, msg) (sig, err)
+//@   trusted threshold signing with the node's share
+//@   modifies nothing
+//@ extern (*github.com/drand/drand/v2/crypto/vault.Vault).SignPartial(v, msg) (sig, err)
+//@   trusted threshold signing with the node's share under the vault read lock
+//@   modifies nothing
+
+//@ func (*Handler).broadcastNextPartial(h, ctx, current, upon)
+//@   props C04
+//@   requires [C04] upon != nil && handlerShape(h)
+//@   modifies nothing
+//@   call SignPartial#0: assert [C04:signed-round-not-beyond-the-ticked-round] round <= current.round && (round == upon.Round + 1 || round == current.round) && arg1 == crypto.digestOf(h.crypto.Scheme, round, previousSig)
+
+//@ pred handlerShape(h) := h != nil && h.crypto != nil && h.conf != nil && h.conf.Group != nil && h.chain != nil
+
+//@ extern (*ticker).ChannelAt(t, start) (ch)
+//@   trusted registers a tick channel
+//@   modifies nothing
+//@ extern (*chainStore).RunSync(c, ctx, upTo, peers)
+//@   trusted enqueues a sync request
+//@   modifies nothing
+//@ extern (*chainStore).AppendedBeaconNoSync(c) (ch)
+//@   trusted channel accessor
+//@   modifies nothing
+
+//@ func (*Handler).run$1()
+//@   props C04
+//@   requires [C04] handlerShape(h)
+//@   modifies nothing
+
+//@ func (*Handler).run$2(c, latest)
+//@   props C04
+//@   requires [C04] handlerShape(h)
+//@   requires [C04:catch-up-only-when-head-is-behind-the-ticked-round] latest.Round < c.round
+//@   modifies nothing
+
+//@ func (*Handler).run(h, startTime)
+//@   props C04
+//@   requires [C04] handlerShape(h)
